@@ -223,7 +223,7 @@ func (g *Gen) boundaryTable() []MsgSpec {
 	mut(func(d *DocSpec) { d.Id = "" })
 	mut(func(d *DocSpec) { d.VMs = nil })
 	mut(func(d *DocSpec) { d.Auth = nil })
-	for _, suf := range []string{"", "k", rep("k", 128), rep("k", 129), "a b", "a\tb", "é", rep("k", 127) + "é"} {
+	for _, suf := range []string{"", "k", rep("k", 128), rep("k", 129), "a b", "a\tb", "é", rep("k", 127) + "é", "\f", "a\fb", "a\rb", "a\nb", "a\vb", "a\u00a0b", "a\u2003b", " k", "k "} {
 		s := suf
 		mut(func(d *DocSpec) { d.VMs[0].Id = good + "#" + s; d.Auth[0].Ref = good + "#" + s })
 	}
@@ -237,6 +237,12 @@ func (g *Gen) boundaryTable() []MsgSpec {
 		kk := key
 		mut(func(d *DocSpec) { d.VMs[0].Key = -1; d.VMs[0].RawKey = kk })
 	}
+	// a relationship entry whose oneof is not set at all, in each of the five lists of an otherwise well-formed document
+	mut(func(d *DocSpec) { d.Auth = append(d.Auth, RelSpec{Unset: true}) })
+	mut(func(d *DocSpec) { d.Assertion = []RelSpec{{Unset: true}} })
+	mut(func(d *DocSpec) { d.KeyAgree = []RelSpec{{Unset: true}} })
+	mut(func(d *DocSpec) { d.CapInv = []RelSpec{{Unset: true}} })
+	mut(func(d *DocSpec) { d.CapDel = []RelSpec{{Ref: good + "#key1"}, {Unset: true}} })
 	mut(func(d *DocSpec) { d.Auth[0].Ref = good + "#missing" })
 	mut(func(d *DocSpec) { d.Assertion = []RelSpec{{Ref: good + "#missing"}} })
 	mut(func(d *DocSpec) { d.KeyAgree = []RelSpec{{Ref: "nonsense"}} })
@@ -313,6 +319,8 @@ func (g *Gen) famHostile() {
 		{T: "did.Create", F: map[string]string{"did": g.env.Dids[2], "from": o}, Doc: &DocSpec{Id: g.env.Dids[2], VMs: []VMSpec{{Id: g.env.Dids[2] + "#k", Type: "EcdsaSecp256k1VerificationKey2019", Key: -1, RawKey: "1"}}, Auth: []RelSpec{{Ref: g.env.Dids[2] + "#k"}}}, Proof: &ProofSpec{Key: 2, MethodID: g.env.Dids[2] + "#k", Seq: "0"}},
 		{T: "did.Create", F: map[string]string{"did": g.env.Dids[2], "from": o}, Doc: &DocSpec{Id: g.env.Dids[2], VMs: []VMSpec{{}}, Auth: []RelSpec{{}}}, Proof: &ProofSpec{Key: 2, MethodID: "", Seq: "0"}},
 		{T: "authz.Exec", F: map[string]string{"grantee": o}, Inner: []MsgSpec{{T: "did.Create", F: map[string]string{"did": g.env.Dids[1], "from": o}, NilDoc: true, Proof: &ProofSpec{RawSig: "00"}}}},
+		{T: "did.Create", F: map[string]string{"did": g.env.Dids[5], "from": o}, Doc: func() *DocSpec { d := g.plainDoc(g.env.Dids[5], 5); d.KeyAgree = []RelSpec{{Unset: true}}; return d }(), Proof: &ProofSpec{Key: 5, MethodID: g.env.Dids[5] + "#key1", Seq: "0"}},
+		{T: "did.Update", F: map[string]string{"did": g.env.Dids[5], "from": o}, Doc: func() *DocSpec { d := g.plainDoc(g.env.Dids[5], 5); d.Auth = append(d.Auth, RelSpec{Unset: true}); return d }(), Proof: &ProofSpec{Key: 5, MethodID: g.env.Dids[5] + "#key1", Seq: "cur"}},
 		{T: "authz.Exec", F: map[string]string{"grantee": o}, Inner: []MsgSpec{M("aol.AddRecord", "topic", big, "owner", o, "writer", "zzz")}},
 	}
 	if g.hostilePos == 0 {
